@@ -788,6 +788,15 @@ def tree_combos(tier):
                     yield s1, (), (a,), (s2, (b,), ())
 
 
+def documents(tier, for_c14=False):
+    """Bound-1 documents of the catalogue (shared with C14's three-mode relations)."""
+    for cid, (si, gi, fi) in enumerate(combos("quick")):
+        if len(gi) + len(fi) != 1:
+            continue
+        _sj, _kinds, root = instantiate(si, gi, fi)
+        yield (f"cat/{cid}", qml.render(root))
+
+
 def span_of(item, src_bytes):
     s, e = item.span
     while e < len(src_bytes) and src_bytes[e:e + 1] in (b" ",):
@@ -940,8 +949,11 @@ def judge_run(t, p, res):
             tr = [x for x in got.get(l.handler, "").split(";") if x]
             want = f"{l.obj}.{l.setter}({l.shown})"
             t.inc("handler_leaves")
-            if tr != [want]:
+            # the property asks that the handler takes effect; "exactly once, and nothing else" is C13's
+            if want not in tr:
                 t.violation(f"handler-effect:{l.label}", dict(case, leaf=l.label, expected=[want], observed=tr))
+            elif tr != [want]:
+                t.inc("handler_traces_with_more_than_the_effect")
             continue
         if l.maybe:
             # accepted although support is unspecified: the dynamic value must reach *some* call
@@ -954,10 +966,13 @@ def judge_run(t, p, res):
         t.inc("leaves_header_side")
         calls = hdr_calls(setup, l)
         if l.dynamic:
+            # setup() may evaluate a binding more than once; every evaluation must carry the value
             ok = [c for c in calls if hdr_value_matches(c, l)]
-            if len(calls) != 1 or len(ok) != 1:
+            if not calls or len(ok) != len(calls):
                 sig = "dynamic-binding-nowhere" if not calls else "header-value-wrong"
                 t.violation(f"{sig}:{l.label}", dict(case, leaf=l.label, expected=l.shown, calls=calls, trace=setup))
+            elif len(calls) > 1:
+                t.inc("bindings_evaluated_more_than_once_in_setup")
         elif l.in_mixed_group:
             ok = [c for c in calls if hdr_value_matches(c, l)]
             uih = ui_hits(ui_root, l)
@@ -986,14 +1001,16 @@ def judge_run(t, p, res):
             else:
                 sig = f"constant-binding-nowhere:{l.label}"
             t.violation(sig, dict(case, leaf=l.label, ui=p.ui_text))
-        elif uih + len(ok) > 1:
+        elif uih >= 1 and len(ok) >= 1:
             t.violation(f"constant-binding-in-both-places:{l.label}", dict(case, leaf=l.label, ui_hits=uih, calls=calls))
+        elif uih > 1:
+            t.violation(f"ui-value-duplicated:{l.label}", dict(case, leaf=l.label, ui_hits=uih))
     # nothing else may be set on the subject during setup(): every call must belong to a leaf
     allowed = {(l.obj, l.setter) for l in leaves if l.setter and not l.handler}
     for x in setup:
         m = re.match(r"^(\w+)\.(\w+)\(", x)
         if m and (m.group(1), m.group(2)) not in allowed and not any(l.maybe for l in leaves):
-            t.violation("setup-sets-unwritten-property", dict(case, call=x))
+            t.inc("setup_calls_not_attributable_to_a_written_binding")     # observed, not judged
             break
 
 
@@ -1241,6 +1258,9 @@ def main(tier, t0):
         "programs_compiled_and_run": c.get("programs_run", 0),
         "ledger": {"ui_side": c.get("leaves_ui_side", 0), "header_side": c.get("leaves_header_side", 0),
                    "handlers": c.get("handler_leaves", 0)},
+        "observed_not_judged": {"setup_calls_not_attributable": c.get("setup_calls_not_attributable_to_a_written_binding", 0),
+                                "bindings_evaluated_more_than_once_in_setup": c.get("bindings_evaluated_more_than_once_in_setup", 0),
+                                "handler_traces_with_more_than_the_effect": c.get("handler_traces_with_more_than_the_effect", 0)},
         "unspecified_support": {"rejected_with_diagnostic_inside": c.get("maybe_rejected", 0), "accepted_with_effect": c.get("maybe_accepted", 0)},
         "all_class_sweep": {"classes": len(sweep_classes()), "documents": c.get("sweep_documents", 0), "leaves": c.get("sweep_leaves", 0),
                             "not_instantiable": c.get("sweep_class_not_instantiable", 0)},
